@@ -5,6 +5,7 @@ use vstd::prelude::*;
 use vstd::std_specs::hash::*;
 use std::borrow::Cow;
 use std::io::SeekFrom;
+use vstd::std_specs::bits::*;
 
 verus! {
 
@@ -521,6 +522,74 @@ pub proof fn lemma_sub_labels_ok(ls: Seq<Seq<u8>>, a: int, b: int)
 {
     let t = ls.subrange(a, b);
     assert forall|i: int| 0 <= i < t.len() implies 1 <= #[trigger] t[i].len() <= 63 by { assert(t[i] == ls[a + i]); }
+}
+
+// ======================================================================== bit-level constants
+pub proof fn lemma_tz_consts()
+    ensures u32_trailing_zeros(0x00FF_0000u32) == 16, u32_trailing_zeros(0xFF00_0000u32) == 24,
+            u16_trailing_zeros(0x7800u16) == 11,
+{
+    broadcast use axiom_u32_trailing_zeros;
+    broadcast use axiom_u16_trailing_zeros;
+    let t1 = u32_trailing_zeros(0x00FF_0000u32) as u32;
+    assert(t1 == 16) by(bit_vector) requires t1 <= 32, (0x00FF_0000u32 >> t1) & 1u32 == 1u32, (0x00FF_0000u32 << sub(32u32, t1)) == 0u32;
+    let t2 = u32_trailing_zeros(0xFF00_0000u32) as u32;
+    assert(t2 == 24) by(bit_vector) requires t2 <= 32, (0xFF00_0000u32 >> t2) & 1u32 == 1u32, (0xFF00_0000u32 << sub(32u32, t2)) == 0u32;
+    let t3 = u16_trailing_zeros(0x7800u16) as u16;
+    assert(t3 == 11) by(bit_vector) requires t3 <= 16, (0x7800u16 >> t3) & 1u16 == 1u16, (0x7800u16 << sub(16u16, t3)) == 0u16;
+}
+
+pub proof fn lemma_be4(s: Seq<u8>)
+    requires s.len() == 4
+    ensures be_nat(s) == ((s[0] as nat * 256 + s[1] as nat) * 256 + s[2] as nat) * 256 + s[3] as nat
+{
+    reveal_with_fuel(be_nat, 5);
+    assert(s.drop_last().drop_last().drop_last().drop_last() =~= Seq::<u8>::empty());
+    assert(s.drop_last()[2] == s[2]);
+    assert(s.drop_last().drop_last()[1] == s[1]);
+    assert(s.drop_last().drop_last().drop_last()[0] == s[0]);
+}
+
+/// the four octets of a 32-bit big-endian word
+pub proof fn lemma_u32_octets(w: u32, s: Seq<u8>)
+    requires s.len() == 4, w as nat == be_nat(s)
+    ensures (w >> 24u32) as u8 == s[0], ((w & 0x00FF_0000u32) >> 16u32) as u8 == s[1],
+            ((w & 0xFF00_0000u32) >> 24u32) == s[0] as u32, ((w & 0x00FF_0000u32) >> 16u32) == s[1] as u32,
+            (w & 0xFFFFu32) == (s[2] as u32) * 256 + s[3] as u32,
+{
+    lemma_be4(s);
+    let (b0, b1, b2, b3) = (s[0], s[1], s[2], s[3]);
+    assert(w == ((b0 as u32 * 256 + b1 as u32) * 256 + b2 as u32) * 256 + b3 as u32) by(nonlinear_arith)
+        requires w as nat == ((b0 as nat * 256 + b1 as nat) * 256 + b2 as nat) * 256 + b3 as nat;
+    assert((w >> 24u32) as u8 == b0 && ((w & 0x00FF_0000u32) >> 16u32) as u8 == b1
+        && ((w & 0xFF00_0000u32) >> 24u32) == b0 as u32 && ((w & 0x00FF_0000u32) >> 16u32) == b1 as u32
+        && (w & 0xFFFFu32) == (b2 as u32) * 256 + b3 as u32) by(bit_vector)
+        requires w == ((b0 as u32 * 256 + b1 as u32) * 256 + b2 as u32) * 256 + b3 as u32;
+}
+
+// ======================================================================== code / length / value lists (OPT options, SVCB params)
+/// items decoded back-to-back from q0, each `u16 code, u16 length, length octets`, ending exactly at q
+pub open spec fn tlv16(data: Seq<u8>, q0: int, items: Seq<(u16, Seq<u8>)>, q: int) -> bool
+    decreases items.len()
+{
+    if items.len() == 0 { q == q0 } else {
+        let it = items.last();
+        let qm = q - 4 - it.1.len();
+        &&& tlv16(data, q0, items.drop_last(), qm)
+        &&& q0 <= qm && q <= data.len()
+        &&& it.0 == be16(data[qm], data[qm + 1])
+        &&& it.1.len() == be16(data[qm + 2], data[qm + 3])
+        &&& it.1 == data.subrange(qm + 4, q)
+    }
+}
+pub open spec fn tlv16_item_enc(it: (u16, Seq<u8>)) -> Seq<u8> { enc16(it.0) + enc16(it.1.len() as u16) + it.1 }
+pub open spec fn tlv16_enc(items: Seq<(u16, Seq<u8>)>) -> Seq<u8>
+    decreases items.len()
+{
+    if items.len() == 0 { Seq::empty() } else { tlv16_enc(items.drop_last()) + tlv16_item_enc(items.last()) }
+}
+pub open spec fn tlv16_ok(items: Seq<(u16, Seq<u8>)>) -> bool {
+    forall|i: int| 0 <= i < items.len() ==> (#[trigger] items[i]).1.len() <= 65535
 }
 
 // ======================================================================== <character-string>
